@@ -114,6 +114,11 @@ fn alphabet(n: usize, tier: Tier) -> Vec<Dev> {
             }));
         }
     }
+    // EnumString's ascii_case_insensitive has no bearing on property keys
+    d.push(dev("enum-level ascii_case_insensitive (does not apply to property keys)", &["aci"], |s| {
+        s.aci = true;
+        true
+    }));
     for st in ["snake_case", "SCREAMING-KEBAB-CASE", "PascalCase"] {
         d.push(dev(format!("serialize_all={:?} (does not apply to property keys)", st), &["style"], move |s| {
             s.serialize_all = Some(st.to_string());
